@@ -2,6 +2,7 @@ package c08
 
 import (
 	"fmt"
+	"github.com/nspcc-dev/neo-go/pkg/config"
 	"math/big"
 	"sort"
 	"testing"
@@ -29,10 +30,21 @@ func chainPart(t *testing.T, run *ev.Run) {
 	nh := ev.Pick(3, 12)
 	nb := ev.Pick(60, 120)
 	for hi := 0; hi < nh; hi++ {
-		h := vchain.BuildHistory(t, vchain.HistoryCfg{Idx: 1800 + hi, Blocks: nb})
+		hc := vchain.HistoryCfg{Idx: 1800 + hi, Blocks: nb}
+		if hi%3 == 2 {
+			// the node-wide P2P signature extensions switched off (the native Notary
+			// contract and its deposits work regardless of it)
+			pn, pr := vchain.ProtoFor(1800 + hi)
+			hc.PName, hc.Proto = pn+"+no-p2p-sig-extensions", func(c *config.Blockchain) { pr(c); c.P2PSigExtensions = false }
+		}
+		h := vchain.BuildHistory(t, hc)
 		p := h.P
 		if p.Rejected != nil {
-			run.Inconclusive("chain h%d: producer rejected its own block: %v", hi, p.Rejected)
+			// the producing node refuses a block it has just built from transactions
+			// it admitted (as in the other chain checks, this is reported: on the
+			// unchanged tree every generated history is accepted)
+			run.Case(fmt.Sprintf("chain/h%d/producer", hi), true)
+			run.Violation("chain:producer-rejected-own-block", fmt.Sprintf("chain/h%d/producer", hi), p.Rejected.Error(), map[string]any{"history": 1800 + hi, "protocol": h.PName})
 			p.Close()
 			continue
 		}
@@ -143,6 +155,46 @@ func chainCase(t *testing.T, run *ev.Run, h *vchain.History, hi, variant int) (*
 					}
 				}
 			}
+		}
+		// notary depositors: transactions sent by the Notary contract and paid from
+		// a deposit, up to just below the deposit - and one more that no longer
+		// fits, which the pool must refuse whatever the other depositors hold
+		for _, u := range p.Users {
+			if u.Blocked || r.Intn(3) != 0 {
+				continue
+			}
+			dep := bc.GetUtilityTokenBalance(nativehashes.Notary, u.Hash()).Int64()
+			var have int64
+			for _, tx := range pool.GetVerifiedTransactions() {
+				if tx.Sender() == nativehashes.Notary && len(tx.Signers) > 1 && tx.Signers[1].Account == u.Hash() {
+					have += tx.SystemFee + tx.NetworkFee
+				}
+			}
+			room := dep - have
+			if dep < 1_0000_0000 || room < 5000_0000 {
+				continue
+			}
+			nonce++
+			fit := vchain.NotaryAssistedTx(t, bc, u, room-int64(r.Intn(1000)), height+2+uint32(r.Intn(2)), nonce)
+			if fit == nil {
+				break
+			}
+			if err := bc.PoolTx(fit); err == nil {
+				run.Obs("chain_near_deposit_notary_txs_pooled", 1)
+				nonce++
+				over := vchain.NotaryAssistedTx(t, bc, u, 3000_0000, height+2, nonce)
+				if err := bc.PoolTx(over); err == nil {
+					log = append(log, fmt.Sprintf("h%d: depositor %d (deposit %d) had %d pooled, then %d and %d more were accepted", height, u.Idx, dep, have, fit.SystemFee+fit.NetworkFee, over.SystemFee+over.NetworkFee))
+					run.Obs("chain_notary_txs_accepted_beyond_the_deposit", 1)
+				} else {
+					run.Obs("chain_notary_txs_beyond_the_deposit_refused", 1)
+				}
+			}
+		}
+		if v := checkChainPool(run, rep, false); v != nil {
+			v.sig += ":before-block"
+			log = append(log, fmt.Sprintf("h%d: %s", height, v.detail))
+			return v, log, refreshed
 		}
 		if variant == 1 && i >= headersTo && r.Intn(3) == 0 {
 			k := 2 + r.Intn(3)
